@@ -258,6 +258,67 @@ Theorem C18_subgen_mc : forall (rng : Type) (choice : rng -> list Z -> nat -> li
 Proof. exact mc_subgen_contract. Qed.
 Print Assumptions C18_subgen_mc.
 
+(* ==== audit follow-up ==== *)
+
+(* an oracle that MEETS the choice contract and with which redraws terminate:
+   cyclic over the indices of non-zero probability *)
+Theorem C18_oracle_cyclic : choice_contract cyc_choice.
+Proof. exact cyc_choice_contract. Qed.
+Print Assumptions C18_oracle_cyclic.
+
+(* Analysis.generate_signal_events (the site a user calls): with a signal
+   generator that reports and returns what it is asked for (C18_end_to_end /
+   C18_multi), the reported n_sig is exactly the number of events added to the
+   per-dataset event lists and to the per-dataset counters; nothing else moves *)
+Theorem C18_analysis : forall (rng E : Type) (gen : rng -> Z -> res (Z * list (Z * list E) * rng))
+  nds g mean ns evs n ns' evs' g',
+  (forall g m n d g1, gen g m = Ok (n, d, g1) -> dict_total d = n /\ Forall (fun kv => 0 <= fst kv) d) ->
+  an_generate rng E gen nds g mean ns evs = Ok (n, ns', evs', g') ->
+  zsum ns' = zsum ns + n /\ ev_total E evs' = ev_total E evs + n
+  /\ length ns' = length ns /\ length evs' = length evs /\ zlen ns = nds /\ zlen evs = nds.
+Proof. exact an_generate_spec. Qed.
+Print Assumptions C18_analysis.
+
+(* MultiDatasetSignalGenerator.change_shg_mgr: every per-dataset generator is
+   rebuilt for the new sources on its own data *)
+Theorem C18_multi_change : forall sts shgs sts',
+  md_change sts shgs = Ok sts' ->
+  Forall2 (fun o o' => match o, o' with
+                       | None, None => True
+                       | Some st, Some st' => mc_ok st' /\ g_shgs st' = shgs /\ g_dss st' = g_dss st
+                       | _, _ => False
+                       end) sts sts'.
+Proof. exact md_change_ok. Qed.
+Print Assumptions C18_multi_change.
+
+(* statement skeleton facts read off the source: the validity mask is called on
+   the variable assigned from the relocation call (redraw loop and first pass);
+   change_shg_mgr has one loop with one call on the per-dataset generators *)
+Theorem C18_data_flow_kernels : forall e v,
+  (redraw_relocated v = v /\ redraw_mask_arg e = e /\ gen_relocated v = v /\ gen_mask_arg e = e)
+  /\ (md_change_calls = 1 /\ md_change_loops = 1).
+Proof. intros e v. exact (conj (K_mask_data_flow e v) K_md_change). Qed.
+Print Assumptions C18_data_flow_kernels.
+
+(* the candidate weight exactly as the source lines compute it, on the model's
+   integer fields, is c_wn / c_wd times one positive constant; and the model's
+   sampler vector is (c_wn / c_wd) * W for one positive W: the sampler's
+   probabilities are proportional to the source's weights *)
+Theorem C18_weight_kernel : forall (erf : R -> R) (mw fx sw lt hw : Z) (lo hi u tf : R),
+  (hi - lo = 2 * IZR hw)%R -> IZR hw <> 0%R ->
+  cand_weight (RNum erf) (cand_flux_srcw (RNum erf) (cand_flux (RNum erf) u (IZR fx) (band_omega (RNum erf) hi lo)) (IZR sw))
+              (IZR lt) tf (IZR mw)
+  = (IZR (mw * fx * sw * lt) / IZR hw * (u * tf / (4 * PI)))%R.
+Proof. exact K_cand_weight_model. Qed.
+Print Assumptions C18_weight_kernel.
+
+Theorem C18_sampler_ratio : forall (tbl : list cand) (i : nat) (c : cand),
+  Forall (fun c => 0 < c_wd c) tbl -> nth_error tbl i = Some c ->
+  IZR (nth i (samp_w tbl) 0) = (IZR (c_wn c) / IZR (c_wd c) * IZR (zlcm_l (map c_wd tbl)))%R
+  /\ 0 < zlcm_l (map c_wd tbl).
+Proof. exact samp_w_ratio. Qed.
+Print Assumptions C18_sampler_ratio.
+
 (* ---- non-vacuity *)
 (* an oracle meeting the contract exists *)
 Example C18_oracle_exists : choice_contract const_choice.
@@ -346,3 +407,34 @@ Proof.
   - unfold zlen. rewrite repeat_length. lia.
   - apply Z.ltb_ge in E. lia.
 Qed.
+
+(* runs under an oracle that meets the contract (C18_oracle_cyclic): a run with
+   a successful redraw (first draw 0,1,0: the second event is invalid; the
+   redraw draws 1 (invalid) then 0), both correction directions of the counts,
+   and the hypotheses of C18_count / C18_valid / C18_counts for these inputs *)
+Example C18_contract_runs_nonvacuous :
+  let shgs := [ {| h_src := [(0, None)]; h_hw := 2; h_er := None; h_flux := assocz [(1, 1)] |} ] in
+  let dss := [ {| d_mc := [ {| e_sd := -10; e_en := 1; e_mw := 1 |}; {| e_sd := 0; e_en := 1; e_mw := 1 |};
+                            {| e_sd := 1; e_en := 1; e_mw := 1 |}; {| e_sd := 10; e_en := 1; e_mw := 1 |} ];
+                  d_lt := 1; d_rng := [(0%nat, (0, 1))] |} ] in
+  exists tbl,
+    construct shgs dss = Ok tbl
+    /\ generate _ cyc_choice (fun ds shg src ev => [ev]) 5 0%nat tbl dss 3 = Ok (3, [(0, [[1]; [1]; [1]])], 5%nat)
+    /\ Forall (fun c => 0 <= c_wn c) tbl /\ Exists (fun c => 0 < c_wn c) tbl /\ Forall (fun c => 0 < c_wd c) tbl
+    /\ ds_counts _ cyc_choice 0%nat 5 100 [8; 31; 31; 30] = Ok ([0; 1; 2; 2], 1%nat)
+    /\ ds_counts _ cyc_choice 7%nat 3 6 [1; 1; 1; 1; 1; 1; 0] = Ok ([0; 1; 1; 1; 0; 0; 0], 10%nat).
+Proof.
+  cbv zeta. eexists. split; [vm_compute; reflexivity|]. split; [vm_compute; reflexivity|].
+  split; [repeat constructor; cbn; lia|]. split; [left; cbn; lia|]. split; [repeat constructor; cbn; lia|].
+  split; vm_compute; reflexivity.
+Qed.
+
+(* Analysis.generate_signal_events on a concrete input: counters 5,0,2, one
+   existing event list; the generator returns 3 events for datasets 1 and 0 *)
+Example C18_analysis_nonvacuous :
+  an_generate nat Z (fun g m => Ok (m, [(1, [7; 7]); (0, [8])], g)) 3 0%nat 3 [5; 0; 2] [Some [1]; None; None]
+  = Ok (3, [6; 2; 2], [Some [1; 8]; Some [7; 7]; None], 0%nat)
+  /\ an_generate nat Z (fun g m => Ok (m, [(1, [7; 7])], g)) 3 0%nat 0 [5; 0; 2] [Some [1]; None; None]
+     = Ok (0, [5; 0; 2], [Some [1]; None; None], 0%nat)
+  /\ an_generate nat Z (fun g m => Ok (m, [(1, [7; 7])], g)) 2 0%nat 1 [5; 0; 2] [Some [1]; None; None] = Err ValueError.
+Proof. repeat split; vm_compute; reflexivity. Qed.
